@@ -129,7 +129,7 @@ def cli_args(args):
 
 # ------------------------------------------------------------------ running the implementation
 
-def run_laze(d, args, extra_env=None, global_mode=True, timeout=20, task=None, cwd=None, generate_only=True, more=(), binary=None):
+def run_laze(d, args, extra_env=None, global_mode=True, timeout=20, task=None, cwd=None, generate_only=True, more=(), binary=None, retry=True):
     env = dict(os.environ)
     env.update({"LAZE_VERIF_DUMP": os.path.join(d, ".dump.jsonl")})
     for k in list(env):
@@ -149,11 +149,27 @@ def run_laze(d, args, extra_env=None, global_mode=True, timeout=20, task=None, c
     cmd += list(more) + cli_args(args)
     if task:
         cmd += task
-    try:
-        p = subprocess.run(cmd, env=env, stdout=subprocess.PIPE, stderr=subprocess.PIPE, timeout=timeout)
-        return {"rc": p.returncode, "stdout": p.stdout.decode("utf-8", "replace"), "stderr": p.stderr.decode("utf-8", "replace")}
-    except subprocess.TimeoutExpired as e:
-        return {"rc": "timeout", "stdout": (e.stdout or b"").decode("utf-8", "replace"), "stderr": (e.stderr or b"").decode("utf-8", "replace")}
+    # a run that exceeds the timeout is repeated once with a timeout 8 times as long before it counts as a hang: on a loaded
+    # machine (other checks, cargo builds) a 50 ms run can take many seconds; a genuine hang is still one after the second wait.
+    # The second attempt starts from what the first left on disk, exactly as a user's second invocation would.
+    for attempt, t in enumerate((timeout, timeout * 8) if retry else (timeout,)):
+        try:
+            p = subprocess.run(cmd, env=env, stdout=subprocess.PIPE, stderr=subprocess.PIPE, timeout=t)
+            return {"rc": p.returncode, "stdout": p.stdout.decode("utf-8", "replace"), "stderr": p.stderr.decode("utf-8", "replace"),
+                    **({"retried_after_timeout": True} if attempt else {})}
+        except subprocess.TimeoutExpired as e:
+            last = e
+            if attempt == 0 and not os.environ.get("LAZE_VERIF_NO_RETRY"):
+                # the killed first attempt may have left a half-written build directory: a fresh one for the retry
+                bd = os.path.join(d, "build")
+                if generate_only and os.path.isdir(bd) and not args.get("_keep_build"):
+                    shutil.rmtree(bd, ignore_errors=True)
+                dump = os.path.join(d, ".dump.jsonl")
+                if os.path.exists(dump):
+                    os.remove(dump)
+                continue
+            break
+    return {"rc": "timeout", "stdout": (last.stdout or b"").decode("utf-8", "replace"), "stderr": (last.stderr or b"").decode("utf-8", "replace")}
 
 
 def read_dump(d):
